@@ -440,9 +440,12 @@ pub fn expected(world: &World, sources: &[String], references: &[String], faults
             exp.io_errors.push(f.spelled.clone());
         }
     }
-    exp.sources = src.iter().map(|f| identity(&f.canonical)).collect();
-    exp.refs_explicit = refs.iter().filter(|f| f.explicit).map(|f| identity(&f.canonical)).collect();
-    exp.refs = refs.iter().map(|f| identity(&f.canonical)).collect();
+    // a file that declares no module (empty, comments only, everything switched off by the preprocessor) is compiled
+    // like any other but holds nothing a request could carry: it is not expected in the request
+    let in_request = |f: &&Found| fs.nodes[&f.canonical].module.is_some();
+    exp.sources = src.iter().filter(in_request).map(|f| identity(&f.canonical)).collect();
+    exp.refs_explicit = refs.iter().filter(in_request).filter(|f| f.explicit).map(|f| identity(&f.canonical)).collect();
+    exp.refs = refs.iter().filter(in_request).map(|f| identity(&f.canonical)).collect();
     exp
 }
 
@@ -466,6 +469,7 @@ const CAPTURE: &str = "capture-gen";
 fn slice_text(k: usize) -> String {
     format!("module U{k}\nstruct S{k} {{ a: int32 }}\n")
 }
+
 
 /// All spellings of the canonical path `target` as seen from `cwd`, through plain relative paths and through every
 /// directory link that leads to one of its ancestors.
@@ -578,6 +582,11 @@ pub fn generate(rng: &mut Rng) -> Scenario {
                     _ => format!("sl{k}.slic"),
                 };
                 entries.push(file(join(&dir, &name), slice_text(3000 + k)))
+            }
+            4 if rng.chance(1, 3) => {
+                let p = join(&dir, &format!("blank{k}.slice"));
+                entries.push(file(p.clone(), crate::catalogue::blank_text(rng)));
+                slice_files.push(p);
             }
             _ => {
                 let p = join(&dir, &format!("f{k}.slice"));
@@ -912,7 +921,9 @@ pub fn judge(s: &Scenario, r: &RunResult) -> (Vec<Violation>, Vec<&'static str>)
 
     let identity_of_spelled = |p: &str| -> Option<String> {
         let c = fs.resolve(&cwd, &unroot(p), true).ok()?;
-        fs.nodes.get(&c).and_then(|n| n.module.clone())
+        let n = fs.nodes.get(&c)?;
+        // a Slice file without a module declaration has no place in the request; it is known by its path
+        Some(n.module.clone().unwrap_or_else(|| format!("<{c}>")))
     };
 
     if !exp.io_errors.is_empty() {
